@@ -337,7 +337,7 @@ def _call_oc(mon, case, ref, hyp):
     zero_dim = (case["R"] == 0 or case["H"] == 0) and case["eos"] is not None
     zero_dim = zero_dim or (case["H"] == 0 and case["exclude_last"])
     documented = (RuntimeError, IndexError) if zero_dim else ()
-    with warnings.catch_warnings():
+    with warnings.catch_warnings(), G.process_mode(case):
         warnings.simplefilter("ignore")
         if case["form"] == "module":
             mon.stat("form_module")
@@ -460,7 +460,7 @@ def _call_loss(mon, case, logits, ref, hyp):
               ins_cost=ins, del_cost=dl, sub_cost=sub, reduction=case["reduction"],
               ignore_index=case["ignore_index"])
     name = "hard_optimal_completion_distillation_loss"
-    with warnings.catch_warnings():
+    with warnings.catch_warnings(), G.process_mode(case):
         warnings.simplefilter("ignore")
         if case["form"] == "module":
             mon.stat("form_module")
